@@ -20,7 +20,8 @@ LIBRARY_MODEL = [
     "list.pop()/deque.pop() -> IndexError on empty; dict.pop(k) without "
     "default -> KeyError",
     "int(s)/float(s) -> ValueError on non-numeric text",
-    "re.compile(text) -> re.error on malformed patterns",
+    "re.compile(text) -> re.error on malformed patterns, OverflowError on "
+    "over-large repetition counts, RecursionError on very deep nesting",
     "seq.index(v)/seq.remove(v) -> ValueError when absent",
     "Enum[name] -> KeyError when name is no member",
     "next(it) without default -> StopIteration",
@@ -92,12 +93,15 @@ def find_sites(fi: FuncInfo) -> List[Site]:
             elif fs in ("re.compile", "re.search", "re.match", "re.fullmatch",
                         "re.sub", "re.findall") and n.args:
                 # an over-large repetition count (`a{99999999999}`) is
-                # reported as OverflowError, not re.error
-                out.append(Site("regex", n, fi, ("re.error", "OverflowError"),
-                                None, n.args[0]))
+                # reported as OverflowError, not re.error; thousands of
+                # nested groups exhaust the compiler's recursion
+                out.append(Site("regex", n, fi,
+                                ("re.error", "OverflowError",
+                                 "RecursionError"), None, n.args[0]))
             elif fs.endswith("literal_eval"):
                 out.append(Site("literal_eval", n, fi,
-                                ("ValueError", "SyntaxError", "TypeError"),
+                                ("ValueError", "SyntaxError", "TypeError",
+                                 "RecursionError"),
                                 None,
                                 n.args[0] if n.args else None))
             elif isinstance(f, ast.Attribute):
